@@ -4,6 +4,8 @@ CONSTANTS
   Menu <- MenuAll
   VarMenu <- VarThorough
   VarVersions <- AllVersions
+  HistMenu <- HistAll
+  HistVersions <- HistVersionsThorough
   MultiMenu <- MultiThorough
   TripleMenu <- TripleThorough
   MaxItems = 3
